@@ -626,8 +626,9 @@ class InterpAkima(InterpAlgorithm):
                     for j in range(nx - 1):
                         if self._compute_d_dx:
                             db[jj1, j] = dbpos[jj1, j]
-                        if self._compute_d_dvalues:
-                            db_dv[jj1, j] = dbpos_dv[jj1, j]
+                    if self._compute_d_dvalues:
+                        # The last axis holds all table values, not the nx - 1 sub-dimensions.
+                        db_dv[jj1] = dbpos_dv[jj1]
 
             else:
                 if self._compute_d_dx:
@@ -689,8 +690,9 @@ class InterpAkima(InterpAlgorithm):
                     for j in range(nx - 1):
                         if self._compute_d_dx:
                             dbp1[jj2, j] = dbp1pos[jj2, j]
-                        if self._compute_d_dvalues:
-                            dbp1_dv[jj2, j] = dbp1pos_dv[jj2, j]
+                    if self._compute_d_dvalues:
+                        # The last axis holds all table values, not the nx - 1 sub-dimensions.
+                        dbp1_dv[jj2] = dbp1pos_dv[jj2]
 
             else:
                 if self._compute_d_dx:
